@@ -95,10 +95,9 @@ theorem C05_complain_keeps_other_flags (l : List Char) (h : WF l) :
     rw [List.erase_append_right _ hc, List.erase_of_not_mem hc]
     simp
 
-/-- **enforce build.** The flags of the rewritten header are the old flags minus (the first)
-`complain`. -/
+/-- **enforce build.** The flags of the rewritten header are the old flags without `complain`, in order. -/
 theorem C05_enforce_flags (l : List Char) (h : WF l) :
-    flagsOf (enforceLine l) = (flagsOf l).erase complainW := by
+    flagsOf (enforceLine l) = (flagsOf l).filter (fun f => f != complainW) := by
   unfold enforceLine
   cases hf : findFlags l with
   | none => simp [flagsOf, hf]
@@ -108,9 +107,9 @@ theorem C05_enforce_flags (l : List Char) (h : WF l) :
     by_cases hc : (splitComma g).contains complainW = true
     · simp only [hc, Bool.not_true, Bool.false_eq_true, if_false]
       rw [hfl]
-      by_cases hemp : ((splitComma g).erase complainW).isEmpty = true
+      by_cases hemp : ((splitComma g).filter (fun f => f != complainW)).isEmpty = true
       · simp only [hemp, if_true]
-        have : (splitComma g).erase complainW = [] := by simpa using hemp
+        have : (splitComma g).filter (fun f => f != complainW) = [] := by simpa using hemp
         rw [this]
         have hcl : ¬ flagsOpen <:+: stem l ++ ['{'] := by
           intro hp
@@ -119,36 +118,39 @@ theorem C05_enforce_flags (l : List Char) (h : WF l) :
         change (match findFlags (stem l ++ ['{']) with | some g => splitComma g | none => []) = []
         rw [findFlags_none hcl]
       · simp only [hemp, if_false, Bool.false_eq_true]
-        have hsub : ∀ f ∈ (splitComma g).erase complainW, f ∈ flagsOf l := by
-          intro f hf'; rw [hfl]; exact List.mem_of_mem_erase hf'
+        have hsub : ∀ f ∈ (splitComma g).filter (fun f => f != complainW), f ∈ flagsOf l := by
+          intro f hf'; rw [hfl]; exact (List.mem_filter.mp hf').1
         apply clause_flags (stem_clean h)
         · simpa using hemp
         · exact fun f hf' => flagsOf_no_comma l f (hsub f hf')
         · exact fun f hf' => flagsOf_no_paren l f (hsub f hf')
-        · cases hx : (splitComma g).erase complainW with
+        · cases hx : (splitComma g).filter (fun f => f != complainW) with
           | nil => simp [hx] at hemp
           | cons x xs => exact ⟨x, by simp, h.2.2 x (hsub x (by simp [hx]))⟩
     · simp only [hc, Bool.not_false, if_true]
       rw [hfl]
       have hn : complainW ∉ splitComma g := by simpa using hc
-      rw [List.erase_of_not_mem hn, ← hfl]
+      symm
+      apply List.filter_eq_self.mpr
+      intro f hfm
+      have : f ≠ complainW := fun e => hn (e ▸ hfm)
+      simpa using this
 
-/-- no block is in complain mode after the enforce builder (flags written once each) -/
-theorem C05_enforce_unsets (l : List Char) (h : WF l) (hd : (flagsOf l).Nodup) :
-    complainW ∉ flagsOf (enforceLine l) := by
+/-- no block is in complain mode after the enforce builder -/
+theorem C05_enforce_unsets (l : List Char) (h : WF l) : complainW ∉ flagsOf (enforceLine l) := by
   rw [C05_enforce_flags l h]
-  exact hd.not_mem_erase
+  intro hm
+  have := (List.mem_filter.mp hm).2
+  simp at this
 
-theorem C05_enforce_keeps_other_flags (l : List Char) (h : WF l) (hd : (flagsOf l).Nodup) :
-    (flagsOf (enforceLine l)).erase complainW = (flagsOf l).erase complainW := by
-  rw [C05_enforce_flags l h]
-  exact List.erase_of_not_mem hd.not_mem_erase
+/-- … and it keeps exactly its other flags, in order -/
+theorem C05_enforce_keeps_other_flags (l : List Char) (h : WF l) :
+    flagsOf (enforceLine l) = (flagsOf l).filter (fun f => f != complainW) := C05_enforce_flags l h
 
-/-- The `Nodup` hypothesis is necessary: a header that lists `complain` twice stays in complain
-mode under `--enforce` (the real builder behaves the same; no shipped header does this). -/
-theorem C05_enforce_needs_nodup :
-    ∃ l, WF l ∧ complainW ∈ flagsOf (enforceLine l) :=
-  ⟨"profile x flags=(complain,complain) {".toList, by decide +kernel, by decide +kernel⟩
+/-- a header that lists `complain` twice is out of complain mode as well (before the fix commit only the first one was
+removed: the theorem then needed "flags written once each", and the real builder was run on this header) -/
+theorem C05_enforce_listed_twice :
+    flagsOf (enforceLine "profile x flags=(complain,audit,complain) {".toList) = ["audit".toList] := by decide +kernel
 
 /-- Lines that are not block headers are carried through unchanged, by both builders. -/
 theorem C05_rule_lines_untouched_complain (t : List Char) :
@@ -162,11 +164,7 @@ theorem C05_rule_lines_untouched_enforce (t : List Char) :
   mapHeaderLines_rel enforceLine (splitNl t)
 
 /-- the hypotheses are satisfiable by ordinary headers -/
-example : WF "profile foo @{exec_path} flags=(attach_disconnected,complain) {".toList
-    ∧ (flagsOf "profile foo @{exec_path} flags=(attach_disconnected,complain) {".toList).Nodup := by
-  constructor
-  · decide +kernel
-  · decide +kernel
+example : WF "profile foo @{exec_path} flags=(attach_disconnected,complain) {".toList := by decide +kernel
 example : WF "  profile bar {".toList := by decide +kernel
 
 /-! ## Every block of every text -/
@@ -207,22 +205,21 @@ theorem C05_complain_every_block (t : List Char) :
     rw [if_neg hn] at this
     exact this
 
-/-- **enforce build, every block of every text** (flags written once each in the header). -/
+/-- **enforce build, every block of every text.** -/
 theorem C05_enforce_every_block (t : List Char) :
     (splitNl (enforce t)).length = (splitNl t).length ∧
     ∀ (i : Nat) (h : i < (splitNl t).length) (h' : i < (splitNl (enforce t)).length),
       ((i + 1 < (splitNl t).length ∧ endsBrace (splitNl t)[i] = true) → WF (splitNl t)[i] →
-          (flagsOf (splitNl t)[i]).Nodup →
           complainW ∉ flagsOf (splitNl (enforce t))[i] ∧
-          (flagsOf (splitNl (enforce t))[i]).erase complainW = (flagsOf (splitNl t)[i]).erase complainW) ∧
+          flagsOf (splitNl (enforce t))[i] = (flagsOf (splitNl t)[i]).filter (fun f => f != complainW)) ∧
       (¬ (i + 1 < (splitNl t).length ∧ endsBrace (splitNl t)[i] = true) → (splitNl (enforce t))[i] = (splitNl t)[i]) := by
   obtain ⟨hl, hg⟩ := builder_line enforceLine (fun h => enforceLine_no_nl h) t
-  refine ⟨hl, fun i h h' => ⟨fun hh hwf hd => ?_, fun hn => ?_⟩⟩
+  refine ⟨hl, fun i h h' => ⟨fun hh hwf => ?_, fun hn => ?_⟩⟩
   · have := hg i h h'
     rw [if_pos hh] at this
     unfold enforce
     rw [this]
-    exact ⟨C05_enforce_unsets _ hwf hd, C05_enforce_keeps_other_flags _ hwf hd⟩
+    exact ⟨C05_enforce_unsets _ hwf, C05_enforce_keeps_other_flags _ hwf⟩
   · have := hg i h h'
     rw [if_neg hn] at this
     exact this
